@@ -69,6 +69,13 @@ FamilyEv(e) == /\ e.ev = "family"
                /\ FamilyObs(e.zone, e.fam)
                /\ UNCHANGED gens
 
+DonorsEv(e) == /\ e.ev = "donors"
+               /\ e.h \in DOMAIN gens
+               /\ gens[e.h].kind = "spread" /\ gens[e.h].zone = e.zone
+               /\ Len(e.ring) = (gens[e.h].inst + 1) * R
+               /\ DonorsObs(e.zone, e.from, e.ring)
+               /\ UNCHANGED gens
+
 CanJoinEv(e) == /\ e.ev = "canjoin"
                 /\ e.h \in DOMAIN gens
                 /\ CanJoinObs(gens[e.h], e.pp, e.pt, e.enabled, e.ok)
@@ -81,7 +88,7 @@ PartitionEv(e) == e.ev = "partition" /\ AddPartitionObs(e.id, e.toks, e.panic) /
 TNext == \/ /\ i <= Len(Traces[tr])
             /\ i' = i + 1 /\ tr' = tr
             /\ LET e == Traces[tr][i] IN
-               \/ Reset(e) \/ Note(e) \/ NewGen(e) \/ CallEv(e) \/ ObserveEv(e) \/ FamilyEv(e)
+               \/ Reset(e) \/ Note(e) \/ NewGen(e) \/ CallEv(e) \/ ObserveEv(e) \/ FamilyEv(e) \/ DonorsEv(e)
                \/ CanJoinEv(e) \/ LoseEv(e) \/ LeaveEv(e) \/ PartitionEv(e)
          \/ /\ i > Len(Traces[tr])                \* the whole trace was accepted
             /\ UNCHANGED tvars
@@ -110,6 +117,8 @@ I_ReservesDisjoint  == C_DisjointStep(last)
 I_FamilyShape       == C_FamilyShape(last)
 I_FamilyReproducible == C_FamilyReproducible(last)
 I_FamilyDisjoint    == C_FamilyDisjoint(last)
+I_RingIsFamily      == C_RingIsFamily(last)
+I_NoDonorStarved    == C_NoDonorStarved(last)
 I_CanJoin           == C_CanJoin(last)
 I_CanJoinEnabled    == C_CanJoinEnabled(last)
 I_Constructor       == C_Constructor(last)
@@ -121,5 +130,8 @@ I_PartitionsDisjoint == last.ev = "partition" =>
                              => Range(parts[q]) \cap Range(parts[last.id]) = {}
 I_AllDistinct        == (IsCall(last) /\ last.member # NoMember) => AllDistinct
 I_SpreadOwnReserve   == (IsCall(last) /\ last.member # NoMember) => SpreadOwnReserve
+(* members whose generator has the CanJoin check on (real lifecyclers wait for it; the synthetic clusters of the  *)
+(* driver join in index order) hold tokens only if the previous instance of their zone does, until somebody leaves *)
+I_PrefixWhenGrowing  == (IsCall(last) /\ last.member # NoMember) => PrefixWhenGrowing
 A_NeverShort         == [][S_NeverShort(ring, last')]_tvars
 =============================================================================
